@@ -167,6 +167,21 @@ func init() {
 			{ID: "C15-U6-empty-check-weakened", File: f, Expect: "U6",
 				Old: "\tif len(vals) == 0 {",
 				New: "\tif len(vals) <= 1 {"},
+			// round 3 (seeds C15-r2A, C15-r2B)
+			{ID: "C15-U1-advance-from-copy-before-resync", File: f, Expect: "U1",
+				Old:  "\t\t\tif clock.Now().After(slot.Next().Time) {",
+				New:  "\t\t\tprev := slot\n\t\t\tif clock.Now().After(slot.Next().Time) {",
+				More: [][2]string{{"\t\t\tslot = slot.Next()\n", "\t\t\tslot = prev.Next()\n"}}},
+			{ID: "C15-U1-next-computed-after-wait", File: f, Expect: "U1",
+				Old:  "\t\t\t// Avoid \"thundering herd\" problem by skipping slots if missed due\n",
+				New:  "\t\t\tnext := slot.Next()\n\t\t\t// Avoid \"thundering herd\" problem by skipping slots if missed due\n",
+				More: [][2]string{{"\t\t\tslot = slot.Next()\n", "\t\t\tslot = next\n"}}},
+			{ID: "C15-U3-sync-fixed-count", File: f, Expect: "U3",
+				Old: "\t\tvar (\n\t\t\tstartSlot = slot\n\t\t\tcurrEpoch = slot.Epoch()\n\t\t)\n\n\t\tfor sl := startSlot; sl.Epoch() == currEpoch; sl = sl.Next() {",
+				New: "\t\tstartSlot := slot\n\n\t\tfor sl, n := startSlot, uint64(0); n < startSlot.SlotsPerEpoch; sl, n = sl.Next(), n+1 {"},
+			{ID: "C15-U3-sync-bound-by-slot-number", File: f, Expect: "U3",
+				Old: "\t\tvar (\n\t\t\tstartSlot = slot\n\t\t\tcurrEpoch = slot.Epoch()\n\t\t)\n\n\t\tfor sl := startSlot; sl.Epoch() == currEpoch; sl = sl.Next() {",
+				New: "\t\tstartSlot := slot\n\n\t\tfor sl := startSlot; sl.Slot < startSlot.Slot+startSlot.SlotsPerEpoch; sl = sl.Next() {"},
 		},
 	})
 }
@@ -231,6 +246,12 @@ type c15Env struct {
 	funcs []*ssa.Function
 	calls map[*ssa.Function][]ssa.CallInstruction // static call / go / defer sites
 	leaks map[*ssa.Function]bool                  // used as a value (method value, stored, passed)
+
+	inFieldInit  int
+	nFieldStores map[string]int
+	// ctx binds a helper with several static uses to the use under analysis (context sensitivity of
+	// origin / rooted / cellOf / argOf while a rule looks into the helper on behalf of one caller)
+	ctx map[*ssa.Function]ssa.CallInstruction
 }
 
 func c15NewEnv(c *rt.Ctx) *c15Env {
@@ -300,6 +321,11 @@ func c15NewEnv(c *rt.Ctx) *c15Env {
 // site returns the only static use of fn when fn is never used as a value and is not exported
 // (an exported function can be called from other packages), else nil.
 func (e *c15Env) site(fn *ssa.Function) ssa.CallInstruction {
+	if fn != nil && e.ctx != nil {
+		if s, ok := e.ctx[fn]; ok {
+			return s
+		}
+	}
 	if fn == nil || e.leaks[fn] || len(e.calls[fn]) != 1 {
 		return nil
 	}
@@ -408,6 +434,13 @@ func (e *c15Env) origin(v ssa.Value) ssa.Value {
 				cell = a
 			case *ssa.FreeVar:
 				cell, _ = c15Binding(a).(*ssa.Alloc)
+			case *ssa.FieldAddr:
+				// a field of a parameter object (`args.slot`, `t.duty`): the value the field was initialised with
+				if init := e.fieldInit(a.X, a.Field); init != nil {
+					v = init
+					continue
+				}
+				return v
 			}
 			if cell == nil {
 				return v
@@ -417,6 +450,12 @@ func (e *c15Env) origin(v ssa.Value) ssa.Value {
 				return v
 			}
 			v = s
+		case *ssa.Field:
+			init := e.fieldInit(x.X, x.Field)
+			if init == nil {
+				return v
+			}
+			v = init
 		case *ssa.Parameter:
 			a := e.argOf(x)
 			if a == nil {
@@ -428,6 +467,80 @@ func (e *c15Env) origin(v ssa.Value) ssa.Value {
 		}
 	}
 	return v
+}
+
+// originShallow is origin without the resolution of parameter-object fields: it stops at the first field
+// read (used when the caller wants to see which field is read).
+func (e *c15Env) originShallow(v ssa.Value) ssa.Value {
+	old := e.inFieldInit
+	e.inFieldInit = 100
+	defer func() { e.inFieldInit = old }()
+	return e.origin(v)
+}
+
+// fieldInit resolves a read of field idx of the struct (or pointer to struct) base to the value the field
+// was given, when base is a parameter object: a local struct variable built once (composite literal or
+// field-by-field) in this function or – through value / pointer parameters of single-use helpers and
+// captured variables – in a caller, whose field is assigned exactly once. nil when it is anything else.
+func (e *c15Env) fieldInit(base ssa.Value, idx int) ssa.Value {
+	if e.inFieldInit > 6 {
+		return nil
+	}
+	e.inFieldInit++
+	defer func() { e.inFieldInit-- }()
+	cell := e.cellOf(base)
+	if cell == nil {
+		return nil
+	}
+	if _, isStruct := cell.Type().Underlying().(*types.Pointer).Elem().Underlying().(*types.Struct); !isStruct {
+		return nil
+	}
+	// only plain local structs: the variable itself may be copied, read field-wise and handed on (by value
+	// or by pointer); when its address is kept or passed, the field must not be assigned anywhere else in
+	// the package (a parameter object is filled in once)
+	shared := false
+	for _, ref := range *cell.Referrers() {
+		switch r := ref.(type) {
+		case *ssa.FieldAddr, *ssa.UnOp, *ssa.DebugRef, *ssa.MakeClosure:
+		case *ssa.Store:
+			if r.Addr != ssa.Value(cell) {
+				if _, local := r.Addr.(*ssa.Alloc); !local {
+					return nil
+				}
+				shared = true
+			}
+		case ssa.CallInstruction:
+			shared = true
+		default:
+			return nil
+		}
+	}
+	key := an.FieldKey(base.Type(), idx)
+	sts := c15StructInit(cell)[key]
+	if len(sts) != 1 {
+		return nil
+	}
+	if shared && e.fieldStores(key) != 1 {
+		return nil
+	}
+	return sts[0].Val
+}
+
+// fieldStores counts the assignments of the named struct field anywhere in the package.
+func (e *c15Env) fieldStores(key string) int {
+	if e.nFieldStores == nil {
+		e.nFieldStores = map[string]int{}
+		for _, fn := range e.funcs {
+			for _, in := range an.Instrs(fn, false) {
+				if st, ok := in.(*ssa.Store); ok {
+					if fa, ok := st.Addr.(*ssa.FieldAddr); ok {
+						e.nFieldStores[an.FieldKey(fa.X.Type(), fa.Field)]++
+					}
+				}
+			}
+		}
+	}
+	return e.nFieldStores[key]
 }
 
 // passThrough follows result idx of a call of a single-use, single-return helper of the package to the
@@ -539,7 +652,15 @@ func (e *c15Env) cellOf(v ssa.Value) *ssa.Alloc {
 			if x.Op != token.MUL {
 				return nil
 			}
-			v = x.X
+			if fa, ok := x.X.(*ssa.FieldAddr); ok {
+				v = e.fieldInit(fa.X, fa.Field) // a struct kept in a field of a parameter object
+			} else {
+				v = x.X
+			}
+		case *ssa.Field:
+			v = e.fieldInit(x.X, x.Field)
+		case *ssa.FieldAddr:
+			v = e.fieldInit(x.X, x.Field) // address of a struct kept in a field of a parameter object
 		case *ssa.Parameter:
 			v = e.argOf(x)
 		default:
@@ -598,9 +719,17 @@ func (e *c15Env) rooted(v, root ssa.Value) bool {
 		}
 		switch x := v.(type) {
 		case *ssa.Field:
-			v = x.X
+			if init := e.fieldInit(x.X, x.Field); init != nil {
+				v = init
+			} else {
+				v = x.X
+			}
 		case *ssa.FieldAddr:
-			v = x.X
+			if init := e.fieldInit(x.X, x.Field); init != nil {
+				v = init
+			} else {
+				v = x.X
+			}
 		case *ssa.UnOp:
 			if x.Op != token.MUL {
 				return false
@@ -622,12 +751,18 @@ func (e *c15Env) rooted(v, root ssa.Value) bool {
 // fieldOf: v reads field `name` of a value rooted at root.
 func (e *c15Env) fieldOf(v ssa.Value, name string, root ssa.Value) bool {
 	b, n, ok := c15FieldRead(v)
+	if !ok {
+		b, n, ok = c15FieldRead(e.originShallow(v))
+	}
 	return ok && n == name && e.rooted(b, root)
 }
 
 // fieldOfCell: v reads field `name` of the struct variable cell.
 func (e *c15Env) fieldOfCell(v ssa.Value, name string, cell *ssa.Alloc) bool {
 	b, n, ok := c15FieldRead(v)
+	if !ok {
+		b, n, ok = c15FieldRead(e.originShallow(v))
+	}
 	return ok && n == name && cell != nil && e.cellOf(b) == cell
 }
 
@@ -682,6 +817,32 @@ func c15Static(v ssa.Value, name string) *ssa.Call {
 func c15IsLoadOf(v ssa.Value, a *ssa.Alloc) bool {
 	ld, ok := an.Unwrap(v).(*ssa.UnOp)
 	return ok && ld.Op == token.MUL && ld.X == ssa.Value(a)
+}
+
+// c15CalleeFn resolves the function a call runs: the static callee, or the function literal a local /
+// captured function variable was (once) assigned.
+func c15CalleeFn(e *c15Env, k *ssa.Call) *ssa.Function {
+	if k.Call.IsInvoke() {
+		return nil
+	}
+	if f := k.Call.StaticCallee(); f != nil {
+		return an.Orig(f)
+	}
+	if mc, ok := e.origin(k.Call.Value).(*ssa.MakeClosure); ok {
+		f, _ := mc.Fn.(*ssa.Function)
+		return f
+	}
+	return nil
+}
+
+// c15LoadThrough returns the load of variable a that v denotes, looking through conversions and copies
+// kept in single-assignment locals (`prev := slot; ... prev`); nil when v is not such a read.
+func c15LoadThrough(v ssa.Value, a *ssa.Alloc) *ssa.UnOp {
+	ld, ok := c15Local(v).(*ssa.UnOp)
+	if !ok || ld.Op != token.MUL || ld.X != ssa.Value(a) {
+		return nil
+	}
+	return ld
 }
 
 // c15SelectFired returns the comparisons `index == state` of a select (the facts "this case fired").
@@ -855,12 +1016,20 @@ type c15Atom struct {
 	v      ssa.Value
 	want   bool
 	opaque bool // result of a package helper that could not be summarised: knowing it on a path makes the path undecided
+	// a flag-valued (enum) result of a helper: dyn decides, from what the path knows about the comparisons
+	// of that result with constants (track), whether every return of the helper compatible with that
+	// knowledge establishes the condition
+	dyn   func(f *an.H15Facts) bool
+	track []ssa.Value
 }
 
 func c15AtomVals(as []c15Atom) []ssa.Value {
 	out := make([]ssa.Value, 0, len(as))
 	for _, a := range as {
-		out = append(out, a.v)
+		if a.v != nil {
+			out = append(out, a.v)
+		}
+		out = append(out, a.track...)
 	}
 	return out
 }
@@ -868,6 +1037,12 @@ func c15AtomVals(as []c15Atom) []ssa.Value {
 // c15Holds: one of the atoms is known, on this path, to have its establishing truth value.
 func c15Holds(f *an.H15Facts, as []c15Atom) bool {
 	for _, a := range as {
+		if a.dyn != nil {
+			if a.dyn(f) {
+				return true
+			}
+			continue
+		}
 		if k, known := f.Known(a.v); known && k == a.want && !a.opaque {
 			return true
 		}
@@ -878,6 +1053,9 @@ func c15Holds(f *an.H15Facts, as []c15Atom) bool {
 // c15Opaque: the path branched on the result of a helper that could not be summarised.
 func c15Opaque(f *an.H15Facts, as []c15Atom) bool {
 	for _, a := range as {
+		if a.dyn != nil || a.v == nil {
+			continue
+		}
 		if _, known := f.Known(a.v); known && a.opaque {
 			return true
 		}
@@ -885,64 +1063,303 @@ func c15Opaque(f *an.H15Facts, as []c15Atom) bool {
 	return false
 }
 
-// c15Atoms returns the condition's atoms in fn (find) and adds, for each call of a single-use boolean
-// helper of the package, the call's result when the helper's result is decided by atoms of its own:
-// every possibly-true return of the helper lies on paths on which an atom holds (then the result being
-// true establishes the condition), or the same for false. This is how a test survives being moved into
-// `func (s *T) isX(...) bool`.
+// c15Summ is the summary of one helper call for one condition: the helper's own atoms (found with the
+// helper's parameters bound to this call's arguments) and, per return, whether every arrival there has
+// an atom holding.
+type c15Summ struct {
+	e     *c15Env
+	h     *ssa.Function
+	call  ssa.CallInstruction
+	inner []c15Atom
+	find  func(fn *ssa.Function) []c15Atom
+	depth int
+}
+
+// bind runs f with the helper's parameters bound to the arguments of the summarised call.
+func (s *c15Summ) bind(f func()) {
+	e := s.e
+	if e.ctx == nil {
+		e.ctx = map[*ssa.Function]ssa.CallInstruction{}
+	}
+	old, had := e.ctx[s.h]
+	e.ctx[s.h] = s.call
+	defer func() {
+		if had {
+			e.ctx[s.h] = old
+		} else {
+			delete(e.ctx, s.h)
+		}
+	}()
+	f()
+}
+
+// returnsHold: every return of the helper whose result idx is compatible with pred (constants are tested,
+// a result forwarded from a nested helper call is followed, anything else counts as compatible)
+// establishes the condition; when the result is boolean, assume additionally narrows the path to those
+// on which the returned value can have that truth value.
+func (s *c15Summ) returnsHold(idx int, pred func(k constant.Value) bool, assume *bool) bool {
+	ok := true
+	s.bind(func() {
+		for _, r := range an.Returns(s.h) {
+			rvs := returnValues(r)
+			if idx >= len(rvs) {
+				ok = false
+				return
+			}
+			rv := rvs[idx]
+			if k, isConst := an.Unwrap(rv).(*ssa.Const); isConst && k.Value != nil {
+				if !pred(k.Value) {
+					continue
+				}
+			}
+			all, decided := c15Arrivals(s.h, r, c15AtomVals(s.inner), nil, func(f *an.H15Facts) bool {
+				g := f
+				if assume != nil {
+					if g = f.Assume(rv, *assume); g == nil {
+						return true
+					}
+				}
+				return c15Holds(g, s.inner)
+			})
+			if all && decided {
+				continue
+			}
+			// `return nested(...)`: the nested helper decides
+			if call2, j := s.e.tailResult(rv); call2 != nil && s.depth < 2 {
+				if s2 := c15Summarise(s.e, call2, s.find, s.depth+1); s2 != nil && s2.returnsHold(j, pred, assume) {
+					continue
+				}
+			}
+			ok = false
+			return
+		}
+	})
+	return ok
+}
+
+// c15ReturnCands: when v is a result of a static call of a package helper, the non-constant values the
+// helper can return there (through `return nested(...)` as well), each traced to its origin with the
+// helper's parameters bound to the call's arguments.
+func c15ReturnCands(e *c15Env, v ssa.Value, depth int, stop func(ssa.Value) bool) (cands []ssa.Value, viaHelper bool) {
+	call, j := e.tailResult(v)
+	if call == nil || depth > 2 {
+		return nil, false
+	}
+	h := an.Orig(call.Call.StaticCallee())
+	if len(h.Blocks) == 0 {
+		return nil, false
+	}
+	s := &c15Summ{e: e, h: h, call: call}
+	s.bind(func() {
+		for _, r := range an.Returns(h) {
+			rvs := returnValues(r)
+			if j >= len(rvs) {
+				continue
+			}
+			if _, isConst := an.Unwrap(rvs[j]).(*ssa.Const); isConst {
+				continue
+			}
+			o := e.origin(rvs[j])
+			if stop != nil && stop(o) {
+				cands = append(cands, o)
+				continue
+			}
+			if more, via := c15ReturnCands(e, o, depth+1, stop); via {
+				cands = append(cands, more...)
+				continue
+			}
+			cands = append(cands, o)
+		}
+	})
+	return cands, true
+}
+
+// tailResult decodes v as result j of a static call of a package function made in the same function.
+func (e *c15Env) tailResult(v ssa.Value) (*ssa.Call, int) {
+	v = c15Local(v)
+	j := 0
+	if ex, ok := v.(*ssa.Extract); ok {
+		v, j = ex.Tuple, ex.Index
+	}
+	call, ok := v.(*ssa.Call)
+	if !ok || call.Call.IsInvoke() || call.Call.StaticCallee() == nil || an.Orig(call.Call.StaticCallee()).Pkg != e.pkg {
+		return nil, 0
+	}
+	return call, j
+}
+
+// c15Summarise prepares the summary of a static call of a package helper; nil when the helper has none of
+// the condition's atoms (or cannot be looked into).
+func c15Summarise(e *c15Env, call *ssa.Call, find func(fn *ssa.Function) []c15Atom, depth int) *c15Summ {
+	if call.Call.IsInvoke() || call.Call.StaticCallee() == nil {
+		return nil
+	}
+	h := an.Orig(call.Call.StaticCallee())
+	if h.Pkg != e.pkg || len(h.Blocks) == 0 || h == call.Parent() || depth > 2 {
+		return nil
+	}
+	s := &c15Summ{e: e, h: h, call: call, find: find, depth: depth}
+	s.bind(func() { s.inner = c15Atoms(e, h, find, depth+1) })
+	if len(s.inner) == 0 {
+		// no atoms of its own: still of interest when it forwards the results of a nested helper that has
+		// (`return validate(...)`); returnsHold then lets the nested helper decide
+		forwards := false
+		s.bind(func() {
+			for _, r := range an.Returns(h) {
+				for _, rv := range returnValues(r) {
+					if call2, _ := e.tailResult(rv); call2 != nil && call2.Parent() == h && c15Summarise(e, call2, find, depth+1) != nil {
+						forwards = true
+					}
+				}
+			}
+		})
+		if !forwards {
+			return nil
+		}
+	}
+	return s
+}
+
+// c15Atoms returns the condition's atoms in fn (find) and adds, for each call of a helper of the package
+// that contains atoms of its own, what the helper's results tell about the condition: the helper is looked
+// at with its parameters bound to this call's arguments (so a helper shared by several callers is followed
+// per call), and a result establishes the condition when every return that can yield it lies on paths on
+// which an atom holds. Boolean results (alone or among several results) give a static atom "result is
+// true / false"; flag-valued results (`verdict`, `mode`) give a dynamic atom evaluated from the
+// comparisons with constants known on the path. This is how a test survives being moved into
+// `func (s *T) isX(...) bool`, `func check(...) (T, bool, error)` or `func classify(...) verdict`.
 func c15Atoms(e *c15Env, fn *ssa.Function, find func(fn *ssa.Function) []c15Atom, depth int) []c15Atom {
 	out := find(fn)
+	if depth > 2 {
+		return out
+	}
 	for _, in := range an.Instrs(fn, false) {
 		call, ok := in.(*ssa.Call)
-		if !ok || call.Call.StaticCallee() == nil {
+		if !ok || call.Call.StaticCallee() == nil || call.Call.IsInvoke() {
 			continue
 		}
 		h := an.Orig(call.Call.StaticCallee())
-		if h.Pkg != e.pkg {
+		if h.Pkg != e.pkg || h == fn {
 			continue
 		}
 		res := h.Signature.Results()
-		if res.Len() != 1 {
+		flagged := false
+		for i := 0; i < res.Len(); i++ {
+			if b, isB := res.At(i).Type().Underlying().(*types.Basic); isB && b.Info()&(types.IsBoolean|types.IsInteger) != 0 {
+				flagged = true
+			}
+		}
+		if !flagged {
 			continue
 		}
-		if b, ok := res.At(0).Type().Underlying().(*types.Basic); !ok || b.Kind() != types.Bool {
-			continue
-		}
-		if depth >= 2 || e.site(h) != ssa.CallInstruction(call) {
-			// a shared (or deeply nested) helper: its parameters cannot be tied to this call's arguments
-			out = append(out, c15Atom{v: call, opaque: true})
-			continue
-		}
-		inner := c15Atoms(e, h, find, depth+1)
-		if len(inner) == 0 {
+		s := c15Summarise(e, call, find, depth)
+		if s == nil {
 			continue
 		}
 		hasOpaque := false
-		for _, a := range inner {
+		for _, a := range s.inner {
 			if a.opaque {
 				hasOpaque = true
 			}
 		}
 		summarised := false
-		for _, pol := range []bool{true, false} {
-			good := true
-			for _, r := range an.Returns(h) {
-				rv := returnValues(r)[0]
-				if k, isConst := c15ConstBool(rv); isConst && k != pol {
-					continue
-				}
-				all, decided := c15Arrivals(h, r, c15AtomVals(inner), nil, func(f *an.H15Facts) bool {
-					g := f.Assume(rv, pol)
-					return g == nil || c15Holds(g, inner)
-				})
-				if !all || !decided {
-					good = false
+		for i := 0; i < res.Len(); i++ {
+			b, isB := res.At(i).Type().Underlying().(*types.Basic)
+			if !isB {
+				continue
+			}
+			// the caller's view of result i
+			var vi ssa.Value = call
+			if res.Len() > 1 {
+				vi = nil
+				for _, ref := range *call.Referrers() {
+					if ex, isEx := ref.(*ssa.Extract); isEx && ex.Index == i {
+						vi = ex
+					}
 				}
 			}
-			if good {
-				out = append(out, c15Atom{v: call, want: pol})
+			if vi == nil {
+				continue
+			}
+			switch {
+			case b.Info()&types.IsBoolean != 0:
+				for _, pol := range []bool{true, false} {
+					pol := pol
+					if s.returnsHold(i, func(k constant.Value) bool { return k.Kind() == constant.Bool && constant.BoolVal(k) == pol }, &pol) {
+						out = append(out, c15Atom{v: vi, want: pol})
+						summarised = true
+						break
+					}
+				}
+			case b.Info()&types.IsInteger != 0:
+				// comparisons of the flag with constants in the caller
+				type cmp struct {
+					bin *ssa.BinOp
+					k   constant.Value
+				}
+				var cmps []cmp
+				var track []ssa.Value
+				for _, in2 := range an.Instrs(fn, false) {
+					bin, isBin := in2.(*ssa.BinOp)
+					if !isBin || (bin.Op != token.EQL && bin.Op != token.NEQ) {
+						continue
+					}
+					x, y := bin.X, bin.Y
+					if _, isC := an.Unwrap(x).(*ssa.Const); isC {
+						x, y = y, x
+					}
+					kc, isC := an.Unwrap(y).(*ssa.Const)
+					if !isC || kc.Value == nil || c15Local(x) != vi {
+						continue
+					}
+					cmps = append(cmps, cmp{bin, kc.Value})
+					track = append(track, bin)
+				}
+				if len(cmps) == 0 {
+					continue
+				}
+				cache := map[string]bool{}
+				idx := i
+				out = append(out, c15Atom{track: track, dyn: func(f *an.H15Facts) bool {
+					key, any := "", false
+					type fact struct {
+						k     constant.Value
+						equal bool
+					}
+					var facts []fact
+					for _, cm := range cmps {
+						kv, known := f.Known(cm.bin)
+						if !known {
+							key += "?"
+							continue
+						}
+						any = true
+						eq := kv == (cm.bin.Op == token.EQL)
+						facts = append(facts, fact{cm.k, eq})
+						if eq {
+							key += "="
+						} else {
+							key += "!"
+						}
+					}
+					if !any {
+						return false
+					}
+					if r, ok := cache[key]; ok {
+						return r
+					}
+					r := s.returnsHold(idx, func(k constant.Value) bool {
+						for _, ft := range facts {
+							if constant.Compare(k, token.EQL, ft.k) != ft.equal {
+								return false
+							}
+						}
+						return true
+					}, nil)
+					cache[key] = r
+					return r
+				}})
 				summarised = true
-				break
 			}
 		}
 		if !summarised && hasOpaque {
@@ -1022,8 +1439,8 @@ func c15OneTrigger(c *rt.Ctx, e *c15Env) (sched, trig *ssa.Function) {
 // Minimum instance counts are the counts confirmed on the pinned tree, except U6 (5 on the pinned tree):
 // merging the two setResolvedEpoch sites of resolveDuties into one is behaviour-preserving and leaves 3.
 func c15(c *rt.Ctx) {
-	c.Rule("U1", 15, func() { c15U1(c) })
-	c.Rule("U2", 9, func() { c15U2(c) })
+	c.Rule("U1", 16, func() { c15U1(c) })
+	c.Rule("U2", 7, func() { c15U2(c) }) // 9 on the pinned tree; each wait function written single-exit has one `return true` site less
 	c.Rule("U3", 32, func() { c15U3(c) })
 	c.Rule("U4", 23, func() { c15U4(c) })
 	c.Rule("U5", 1, func() { c15U5(c) })
@@ -1205,13 +1622,25 @@ func c15U1(c *rt.Ctx) {
 			continue
 		}
 		if ex, ok := src.(*ssa.Extract); ok && ex.Index == 0 {
-			if get, ok := ex.Tuple.(*ssa.Call); ok && get.Parent() == sched && an.Static(c15P+".Scheduler.getDutyDefinitionSet")(&get.Call) {
+			if get, ok := ex.Tuple.(*ssa.Call); ok && own[get.Parent()] && an.Static(c15P+".Scheduler.getDutyDefinitionSet")(&get.Call) {
+				// the lookup sits in scheduleSlot or in a single-use helper on the way to the trigger: the start
+				// of the trigger in that function must be reached only with the presence flag set
+				var startAt ssa.Instruction
+				for _, cs := range chain {
+					if cs.Parent() == get.Parent() {
+						startAt = cs
+					}
+				}
+				if startAt == nil {
+					c.Unsure("scheduleSlot trigger definition set", st.Pos(), "the definition set is looked up in a function that is not on the way from scheduleSlot to the trigger")
+					continue
+				}
 				if d := c15ArgT(&get.Call, "core.Duty"); d != nil && e.cellOf(d) == lit {
 					_, okv := an.StatusOf(get, 1)
 					if okv == nil {
 						why = "the presence flag of getDutyDefinitionSet is discarded"
 					} else {
-						all, decided := c15Arrivals(sched, st, []ssa.Value{okv}, nil, func(f *an.H15Facts) bool {
+						all, decided := c15Arrivals(get.Parent(), startAt, []ssa.Value{okv}, nil, func(f *an.H15Facts) bool {
 							k, known := f.Known(okv)
 							return known && k
 						})
@@ -1242,20 +1671,8 @@ func c15U1(c *rt.Ctx) {
 				"scheduleSlot must be invoked synchronously from exactly one site (Run's ticker case, directly or through a single-use helper); a second invocation triggers the slot's duties again") {
 				continue
 			}
-			top := up[len(up)-1]
-			fromTicker, sameIter := false, true
-			for _, h := range up[:len(up)-1] {
-				if an.InnermostLoop(h.Parent(), h.Block()) != nil {
-					sameIter = false
-				}
-				if _, plain := h.(*ssa.Call); !plain {
-					sameIter = false
-				}
-			}
-			if _, plain := top.(*ssa.Call); !plain {
-				sameIter = false
-			}
-			// the slot is the value received from the ticker channel: in a select case or by a plain receive
+			// the slot is the value received from the ticker channel: in a select case or by a plain receive,
+			// in Run or in a helper that only Run (transitively) uses
 			got := e.origin(c15ArgT(s.Common(), "core.Slot"))
 			var ch ssa.Value
 			var at *ssa.BasicBlock
@@ -1269,18 +1686,38 @@ func c15U1(c *rt.Ctx) {
 					ch, at = rcv.X, rcv.Block()
 				}
 			}
-			if ch == nil || at.Parent() != run {
+			if ch == nil || (at.Parent() != run && !e.owned(run)[at.Parent()]) {
 				c.Unsure("Run scheduleSlot argument", s.Pos(), "the slot scheduled cannot be traced to a channel receive in Run")
 				continue
 			}
-			ch = e.origin(ch)
-			if ex, ok := ch.(*ssa.Extract); ok {
-				ch = ex.Tuple
+			// the calls leading from the receiving function down to scheduleSlot: synchronous, not repeated
+			k := -1
+			for i, h := range up {
+				if h.Parent() == at.Parent() {
+					k = i
+				}
 			}
-			if call, ok := ch.(*ssa.Call); ok && an.Static(c15P+".newSlotTicker")(&call.Call) {
-				fromTicker = true
+			if k < 0 {
+				c.Unsure("Run scheduleSlot argument", s.Pos(), "the receive from the ticker is not on the call chain from Run to scheduleSlot")
+				continue
 			}
-			sameIter = sameIter && c15SameLoop(run, at, top.Block())
+			fromTicker, sameIter, looped := false, true, false
+			for i, h := range up[:k+1] {
+				if _, plain := h.(*ssa.Call); !plain {
+					sameIter = false
+				}
+				if i < k && an.InnermostLoop(h.Parent(), h.Block()) != nil {
+					looped = true
+				}
+			}
+			if call, idx := e.resultOf(ch); call != nil && idx == 0 && an.Static(c15P+".newSlotTicker")(&call.Call) {
+				fromTicker = true // directly, or through a single-use helper that returns newSlotTicker's results
+			}
+			if looped && fromTicker && sameIter {
+				c.Unsure("Run scheduleSlot argument", s.Pos(), "a helper between the ticker receive and scheduleSlot calls on from inside a loop; cannot tell how often a tick is scheduled")
+				continue
+			}
+			sameIter = sameIter && c15SameLoop(at.Parent(), at, up[k].Block())
 			c.Check("Run scheduleSlot argument", s.Pos(), fromTicker && sameIter,
 				"the slot scheduled is not the value just received from newSlotTicker's channel (one scheduleSlot per tick)")
 		}
@@ -1375,22 +1812,52 @@ func c15Ticker(c *rt.Ctx, e *c15Env) {
 		return
 	}
 	sel, state := emits[0].sel, emits[0].state
-	fn := sel.Parent()
 	c.Good("newSlotTicker single emission", sel.Pos(), "")
-	sent := an.Unwrap(sel.States[state].Send)
-	ld, ok := sent.(*ssa.UnOp)
-	var cur *ssa.Alloc
-	if ok && ld.Op == token.MUL {
-		cur, _ = ld.X.(*ssa.Alloc)
-	}
+	// the ticker's slot variable: the variable whose value is sent – directly, or handed to a single-use
+	// helper that does the send (`deliverSlot(ctx, resp, slot)`)
+	cur := e.cellOf(sel.States[state].Send)
 	if cur == nil {
 		c.Unsure("newSlotTicker slot variable", sel.Pos(), "emitted value is not the ticker's slot variable")
 		return
 	}
+	fn := cur.Parent()
+	// emitAt: the emission as seen in the loop function (the select, or the call of the helper around it);
+	// sentFacts: the values whose truth means "the slot has just been sent"
+	var emitAt ssa.Instruction = sel
 	sentFacts := c15SelectFired(sel, state)
 	if len(sentFacts) == 0 {
 		c.Unsure("newSlotTicker emission edge", sel.Pos(), "cannot find the branch taken after the send")
 		return
+	}
+	if sel.Parent() != fn {
+		chain := e.chain(sel.Parent(), fn)
+		if len(chain) == 0 {
+			c.Unsure("newSlotTicker emission edge", sel.Pos(), "the send sits in a helper that is not reached from the ticker loop through single uses")
+			return
+		}
+		emitAt = chain[len(chain)-1]
+		inner := sentFacts
+		atoms := c15Atoms(e, fn, func(h *ssa.Function) []c15Atom {
+			var out []c15Atom
+			if h == sel.Parent() {
+				for _, v := range inner {
+					out = append(out, c15Atom{v: v, want: true})
+				}
+			}
+			return out
+		}, 0)
+		sentFacts = nil
+		for _, a := range atoms {
+			if a.v != nil && a.want && !a.opaque && a.dyn == nil {
+				if in, isIn := a.v.(ssa.Instruction); isIn && in.Parent() == fn {
+					sentFacts = append(sentFacts, a.v)
+				}
+			}
+		}
+		if len(sentFacts) == 0 {
+			c.Unsure("newSlotTicker emission edge", emitAt.Pos(), "the helper that sends the slot does not report (by a true result) that the slot was sent")
+			return
+		}
 	}
 	// the wait for the slot's start time (in the loop itself or in a single-use boolean helper)
 	findWait := func(h *ssa.Function) []c15Atom {
@@ -1456,7 +1923,7 @@ func c15Ticker(c *rt.Ctx, e *c15Env) {
 	// "the wait fired" at the emission means it fired in this iteration.
 	waited := func(f *an.H15Facts) bool { return c15AnyTrue(f, waitFacts) }
 	justSent := func(f *an.H15Facts) bool { return c15AnyTrue(f, sentFacts) }
-	c15CheckArrivals(c, "newSlotTicker emission after slot start", fn, sel, track, waited,
+	c15CheckArrivals(c, "newSlotTicker emission after slot start", fn, emitAt, track, waited,
 		"the emission is not preceded by the wait clock.After(slot.Time.Sub(clock.Now())) for the emitted slot")
 	// assignments of the slot variable
 	var advances []*ssa.Store
@@ -1495,11 +1962,97 @@ func c15Ticker(c *rt.Ctx, e *c15Env) {
 		}
 	}
 	for _, st := range stores {
-		if next := c15Static(st.Val, "core.Slot.Next"); next != nil && c15IsLoadOf(next.Call.Args[0], cur) {
+		if next := c15Static(st.Val, "core.Slot.Next"); next != nil && c15LoadThrough(next.Call.Args[0], cur) != nil {
 			advances = append(advances, st)
 			c15CheckArrivals(c, "newSlotTicker advance after emission", fn, st, track, justSent,
 				"slot = slot.Next() is executed on a path that has not just emitted the slot (a slot is emitted for a time that was not waited for)")
+			// the successor is computed from the slot that was emitted: the read of the slot variable that
+			// feeds Next() must not be separated from this assignment by another assignment of the variable
+			// (a resync to the clock's current slot). Otherwise the resync is undone: after a missed tick the
+			// ticker falls behind again and emits the catch-up slot once per slot it had skipped.
+			ld := c15LoadThrough(next.Call.Args[0], cur)
+			stale := false
+			for _, s2 := range stores {
+				if s2 != st && c15ReachAvoiding(ld, s2, ld.Block()) && c15ReachAvoiding(s2, st, ld.Block()) {
+					stale = true
+				}
+			}
+			c.Check("newSlotTicker advance from emitted slot", posOf(st), !stale,
+				"the successor slot is computed from a read of the slot variable taken before it was re-synchronised to the clock: the resync is overwritten, the ticker falls behind again and the catch-up slot is emitted (and its duties triggered) repeatedly")
 			continue
+		}
+		// the current slot obtained through a helper / closure that also reports whether a resync is due
+		// (`actual, skipped := skippedTo(slot)`): the value assigned is what the helper returns on the
+		// returns compatible with what the path knows about the helper's boolean results
+		if ex, isEx := c15Local(st.Val).(*ssa.Extract); isEx && inLoop(st.Block()) {
+			if k, isCall := ex.Tuple.(*ssa.Call); isCall && an.TypeName(ex.Type()) == "core.Slot" {
+				h := c15CalleeFn(e, k)
+				if h == nil || h.Pkg != e.pkg || len(h.Blocks) == 0 {
+					c.Unsure("newSlotTicker resync", posOf(st), "the slot is replaced by a result of a call that cannot be followed")
+					continue
+				}
+				flags := map[int]ssa.Value{}
+				tr := append([]ssa.Value{}, track...)
+				for _, ref := range *k.Referrers() {
+					if fx, ok := ref.(*ssa.Extract); ok && fx.Index != ex.Index {
+						if b, isB := fx.Type().Underlying().(*types.Basic); isB && b.Kind() == types.Bool {
+							flags[fx.Index] = fx
+							tr = append(tr, fx)
+						}
+					}
+				}
+				isCurrent := func(cc *ssa.Call) bool {
+					for _, st0 := range stores {
+						c0, isCall := c15Local(st0.Val).(*ssa.Call)
+						if !isCall || inLoop(st0.Block()) {
+							continue
+						}
+						if c0.Call.StaticCallee() != nil || cc.Call.StaticCallee() != nil {
+							return c0.Call.StaticCallee() == cc.Call.StaticCallee() && !cc.Call.IsInvoke() && len(cc.Call.Args) == len(c0.Call.Args)
+						}
+						a, b := e.origin(c0.Call.Value), e.origin(cc.Call.Value)
+						return a == b || an.Equiv(a, b)
+					}
+					return false
+				}
+				order, other := true, false
+				all, decided := c15Arrivals(fn, st, tr, nil, func(f *an.H15Facts) bool {
+					if !waited(f) || justSent(f) {
+						order = false
+						return false
+					}
+					for _, r := range an.Returns(h) {
+						rvs := returnValues(r)
+						compat := true
+						for j, ej := range flags {
+							if kc, isC := c15ConstBool(rvs[j]); isC {
+								if kk, known := f.Known(ej); known && kk != kc {
+									compat = false
+								}
+							}
+						}
+						if !compat {
+							continue
+						}
+						cc, isCall := e.origin(rvs[ex.Index]).(*ssa.Call)
+						if !isCall || !isCurrent(cc) {
+							other = true
+							return false
+						}
+					}
+					return true
+				})
+				switch {
+				case !decided:
+					c.Unsure("newSlotTicker resync", posOf(st), "too many paths to enumerate")
+				case !all && other && order:
+					c.Unsure("newSlotTicker resync", posOf(st), "the helper that yields the new slot can return something that is not recognisably the clock-derived current slot")
+				default:
+					c.Check("newSlotTicker resync", posOf(st), all,
+						"the slot is replaced inside the loop by something other than the clock-derived current slot read after the slot-start wait")
+				}
+				continue
+			}
 		}
 		call, ok := c15Local(st.Val).(*ssa.Call)
 		isSlotMethod := false
@@ -1542,8 +2095,8 @@ func c15Ticker(c *rt.Ctx, e *c15Env) {
 		avoid[a.Block()] = true
 	}
 	again := false
-	for _, s := range sel.Block().Succs {
-		if an.CanReach(s, sel.Block(), avoid) {
+	for _, s := range emitAt.Block().Succs {
+		if an.CanReach(s, emitAt.Block(), avoid) {
 			again = true
 		}
 	}
@@ -1913,6 +2466,13 @@ func c15Deadline(c *rt.Ctx, e *c15Env, fn *ssa.Function, byDuty bool) {
 	}
 	var armed func(ch ssa.Value) bool
 	armed = func(ch ssa.Value) bool {
+		if p, isP := c15Local(ch).(*ssa.Parameter); isP {
+			// the channel handed to a helper that waits on it: the argument of the call under analysis
+			if a := e.argOf(p); a != nil {
+				return armed(a)
+			}
+			return false
+		}
 		call, ok := c15Local(ch).(*ssa.Call)
 		if !ok {
 			return false
@@ -1975,6 +2535,65 @@ func c15Deadline(c *rt.Ctx, e *c15Env, fn *ssa.Function, byDuty bool) {
 			}
 		}
 	}
+	// a boolean helper that does the waiting (`awaitTimer(ctx, timer)`, possibly shared by both wait
+	// functions): its true result stands for "the armed channel fired" when, looked at with the arguments
+	// of this call, it returns a non-false value only after a receive from the armed channel
+	for _, in := range an.Instrs(fn, false) {
+		call, ok := in.(*ssa.Call)
+		if !ok || call.Call.StaticCallee() == nil || call.Call.IsInvoke() {
+			continue
+		}
+		h := an.Orig(call.Call.StaticCallee())
+		if h.Pkg != e.pkg || h == fn || e.leaks[h] || h.Signature.Results().Len() != 1 || len(h.Blocks) == 0 {
+			continue
+		}
+		if b, isB := h.Signature.Results().At(0).Type().Underlying().(*types.Basic); !isB || b.Kind() != types.Bool {
+			continue
+		}
+		hasChan := false
+		for _, a := range call.Call.Args {
+			if _, isChan := a.Type().Underlying().(*types.Chan); isChan {
+				hasChan = true
+			}
+		}
+		if !hasChan {
+			continue
+		}
+		if e.ctx == nil {
+			e.ctx = map[*ssa.Function]ssa.CallInstruction{}
+		}
+		e.ctx[h] = call
+		var hfired []ssa.Value
+		for _, hin := range an.Instrs(h, false) {
+			if sel, isSel := hin.(*ssa.Select); isSel {
+				for i, st := range sel.States {
+					if st.Dir == types.RecvOnly && armed(st.Chan) {
+						hfired = append(hfired, c15SelectFired(sel, i)...)
+					}
+				}
+			}
+		}
+		good := len(hfired) > 0
+		for _, r := range an.Returns(h) {
+			rv := returnValues(r)[0]
+			if k, isConst := c15ConstBool(rv); isConst && !k {
+				continue
+			}
+			all, decided := c15Arrivals(h, r, hfired, nil, func(f *an.H15Facts) bool {
+				g := f.Assume(rv, true)
+				return g == nil || c15AnyTrue(g, hfired)
+			})
+			if !all || !decided {
+				good = false
+			}
+		}
+		delete(e.ctx, h)
+		if good {
+			fired = append(fired, call)
+		} else {
+			unknownTimer = true
+		}
+	}
 	track := append(append([]ssa.Value{}, fired...), noOffset...)
 	n := 0
 	for _, r := range an.Returns(fn) {
@@ -1994,6 +2613,10 @@ func c15Deadline(c *rt.Ctx, e *c15Env, fn *ssa.Function, byDuty bool) {
 				if !k {
 					return true
 				}
+			} else if g := f.Assume(rv, true); g == nil {
+				return true // the result cannot be true on this path
+			} else if _, now := g.Known(rv); now {
+				f = g // what is known when the (non-constant) result is true
 			} else {
 				unknownResult = true
 			}
@@ -2053,6 +2676,113 @@ func c15ResolverFns(c *rt.Ctx, e *c15Env) []*ssa.Function {
 		c.Bail("no function calls setDutyDefinition")
 	}
 	return out
+}
+
+// c15RavCall returns the one call of resolveActiveValidators in resolveDuties or in a function only
+// resolveDuties (transitively) uses.
+func c15RavCall(c *rt.Ctx, e *c15Env, rd *ssa.Function) ssa.CallInstruction {
+	var out []ssa.CallInstruction
+	for _, fn := range e.ownedList(rd) {
+		out = append(out, an.Calls(fn, an.Static(c15P+".resolveActiveValidators"), false)...)
+	}
+	if len(out) != 1 {
+		c.Bail("expected exactly one call to resolveActiveValidators under %s, found %d", an.FuncName(rd), len(out))
+	}
+	return out[0]
+}
+
+// c15HasParamT: fn has a (non-pointer) parameter of the given type.
+func c15HasParamT(fn *ssa.Function, typ string) bool {
+	for _, p := range fn.Params {
+		if _, ptr := p.Type().(*types.Pointer); !ptr && an.TypeName(p.Type()) == typ {
+			return true
+		}
+	}
+	return false
+}
+
+// c15ResolverEntries maps every function that stores duty definitions to its resolver entry: the topmost
+// function, reached through single static uses, that still receives the validator list as a parameter
+// (the store may have been moved into a per-duty helper of the resolver). Entries are returned once each,
+// in package order.
+func c15ResolverEntries(c *rt.Ctx, e *c15Env) (entries []*ssa.Function, stores map[*ssa.Function][]*ssa.Function) {
+	stores = map[*ssa.Function][]*ssa.Function{}
+	for _, sf := range c15ResolverFns(c, e) {
+		top := sf
+		for i := 0; i < 4; i++ {
+			s := e.site(top)
+			if s == nil || s.Parent().Parent() != nil || !c15HasParamT(s.Parent(), c15P+".validators") {
+				break
+			}
+			top = s.Parent()
+		}
+		stores[top] = append(stores[top], sf)
+	}
+	for _, fn := range e.funcs {
+		if len(stores[fn]) > 0 {
+			entries = append(entries, fn)
+		}
+	}
+	return entries, stores
+}
+
+// c15Level is one step of the way from an instruction up to an enclosing entry function: the function and
+// the instruction in it (the sink itself, then the call of the helper containing it, ...).
+type c15Level struct {
+	fn *ssa.Function
+	at ssa.Instruction
+}
+
+func (e *c15Env) levels(sink ssa.Instruction, top *ssa.Function) []c15Level {
+	out := []c15Level{{sink.Parent(), sink}}
+	fn := sink.Parent()
+	for i := 0; i < 6 && fn != top; i++ {
+		s := e.site(fn)
+		if s == nil {
+			break
+		}
+		out = append(out, c15Level{s.Parent(), s})
+		fn = s.Parent()
+	}
+	return out
+}
+
+// c15CheckHoldsUp is c15CheckHolds over the levels from the sink up to the entry function: the condition is
+// established when, at some level, every feasible arrival at that level's instruction has an atom holding.
+// A violation needs an unguarded arrival at every level (then a path through all of them exists).
+func c15CheckHoldsUp(c *rt.Ctx, e *c15Env, name string, sink ssa.Instruction, top *ssa.Function, find func(fn *ssa.Function) []c15Atom, detail string) bool {
+	opaque, undecided := false, false
+	for _, lv := range e.levels(sink, top) {
+		atoms := c15Atoms(e, lv.fn, find, 0)
+		if len(atoms) == 0 {
+			continue
+		}
+		all, decided := c15Arrivals(lv.fn, lv.at, c15AtomVals(atoms), nil, func(f *an.H15Facts) bool {
+			if c15Holds(f, atoms) {
+				return true
+			}
+			if c15Opaque(f, atoms) {
+				opaque = true
+			}
+			return false
+		})
+		if !decided {
+			undecided = true
+			continue
+		}
+		if all {
+			return c.Check(name, sink.Pos(), true, detail)
+		}
+	}
+	if undecided {
+		c.Unsure(name, sink.Pos(), "too many paths to enumerate")
+		return false
+	}
+	if opaque {
+		c.Unsure(name, sink.Pos(), "the deciding test sits in a helper whose result could not be summarised; it cannot be tied to this call's arguments")
+		return false
+	}
+	return c.Check(name, sink.Pos(), false, detail)
 }
 
 func c15ShortName(fn *ssa.Function) string {
@@ -2248,6 +2978,38 @@ func c15NilAtoms(fn *ssa.Function, ev ssa.Value) []c15Atom {
 	return out
 }
 
+// c15ErrNilCmps lists the comparisons of error-typed values with nil in fn.
+func c15ErrNilCmps(fn *ssa.Function) []ssa.Value {
+	var out []ssa.Value
+	for _, in := range an.Instrs(fn, false) {
+		if bin, isBin := in.(*ssa.BinOp); isBin && (bin.Op == token.EQL || bin.Op == token.NEQ) &&
+			((an.IsNilConst(bin.X) && an.IsErrorType(bin.Y.Type())) || (an.IsNilConst(bin.Y) && an.IsErrorType(bin.X.Type()))) {
+			out = append(out, bin)
+		}
+	}
+	return out
+}
+
+// c15NilOnPath: the path knows, from a comparison of a value that on this path stands for ev (an error
+// variable reused along a chain is a phi resolved per path), that ev is nil.
+func c15NilOnPath(f *an.H15Facts, cmps []ssa.Value, ev ssa.Value) bool {
+	for _, b := range cmps {
+		k, known := f.Known(b)
+		if !known {
+			continue
+		}
+		bin := b.(*ssa.BinOp)
+		x := bin.X
+		if an.IsNilConst(x) {
+			x = bin.Y
+		}
+		if r := f.Resolve(x); (r == ev || an.Unwrap(r) == ev) && k == (bin.Op == token.EQL) {
+			return true
+		}
+	}
+	return false
+}
+
 // c15NilKnown: what the path knows about the value the atoms compare with nil.
 func c15NilKnown(f *an.H15Facts, atoms []c15Atom) (isNil bool, known bool) {
 	for _, a := range atoms {
@@ -2303,9 +3065,10 @@ func c15TopSite(e *c15Env, call ssa.CallInstruction, top *ssa.Function) ssa.Call
 // (for a call standing for a loop: for every element). unsure is set when a returned value cannot be classified.
 func c15NilReturnImplies(h *ssa.Function, call ssa.CallInstruction, loop *an.Loop, excuse func(h *ssa.Function) ([]ssa.Value, func(f *an.H15Facts) bool)) (ok bool, unsure bool) {
 	res := h.Signature.Results()
-	if res.Len() != 1 || !an.IsErrorType(res.At(0).Type()) {
+	if res.Len() == 0 || !an.IsErrorType(res.At(res.Len()-1).Type()) {
 		return false, true
 	}
+	errIdx := res.Len() - 1
 	errs, _ := an.StatusOf(call, -1)
 	if len(errs) != 1 {
 		return false, false
@@ -2328,7 +3091,7 @@ func c15NilReturnImplies(h *ssa.Function, call ssa.CallInstruction, loop *an.Loo
 	}
 	ok = true
 	for _, r := range an.Returns(h) {
-		rv := returnValues(r)[0]
+		rv := returnValues(r)[errIdx]
 		loopDone := false
 		if loop != nil {
 			loopDone, _, _ = c15ErrNilAt(h, call, loop, r)
@@ -2461,7 +3224,7 @@ func c15U3(c *rt.Ctx) {
 	// definitions are stored only by the resolve functions that resolveDuties runs (discovered by what
 	// they do); a store anywhere else bypasses the validator / public-key / slot checks
 	rd := c.Fn(c15P + ".Scheduler.resolveDuties")
-	resolvers := c15ResolverFns(c, e)
+	resolvers, storesOf := c15ResolverEntries(c, e)
 	rcs := c15ResolverCalls(c, e, rd, resolvers)
 	runBy := map[string]bool{}
 	for _, rc := range rcs {
@@ -2481,7 +3244,11 @@ func c15U3(c *rt.Ctx) {
 	for _, fn := range resolvers {
 		rn := c15ShortName(fn)
 		if !runBy[rn] {
-			for _, call := range an.Calls(fn, an.Static(setN), false) {
+			var calls []ssa.CallInstruction
+			for _, sf := range storesOf[fn] {
+				calls = append(calls, an.Calls(sf, an.Static(setN), false)...)
+			}
+			for _, call := range calls {
 				if own := e.owned(rd); own[fn] {
 					c.Unsure(an.FuncName(fn)+" setDutyDefinition", call.Pos(), "the store was moved into a helper below resolveDuties that is not called with the validator list directly; the per-duty checks cannot be followed there")
 					continue
@@ -2493,12 +3260,19 @@ func c15U3(c *rt.Ctx) {
 		checked = append(checked, fn)
 	}
 	kinds := map[string]bool{}
-	for _, fn := range checked {
-		rn := c15ShortName(fn)
-		slotP := c15ParamT(c, fn, "core.Slot")
-		valsP := c15ParamT(c, fn, c15P+".validators")
-		sinks := c.SomeCalls(fn, an.Static(setN), "setDutyDefinition", false)
+	for _, entry := range checked {
+		rn := c15ShortName(entry)
+		slotP := c15ParamT(c, entry, "core.Slot")
+		valsP := c15ParamT(c, entry, c15P+".validators")
+		var sinks []ssa.CallInstruction
+		for _, sf := range storesOf[entry] {
+			sinks = append(sinks, c.SomeCalls(sf, an.Static(setN), "setDutyDefinition", false)...)
+		}
 		for _, sink := range sinks {
+			// fn: the function the store sits in (the resolver itself or a per-duty helper below it); the
+			// guards are looked for on the way from the store up to the resolver's entry
+			fn := sink.Parent()
+			levels := e.levels(sink, entry)
 			cc := sink.Common()
 			dutyArg, epochArg, pkArg, defArg := c15ArgT(cc, "core.Duty"), c15ArgT(cc, "uint64"), c15ArgT(cc, "core.PubKey"), c15ArgT(cc, "core.DutyDefinition")
 			if dutyArg == nil || epochArg == nil || pkArg == nil || defArg == nil {
@@ -2521,11 +3295,12 @@ func c15U3(c *rt.Ctx) {
 			var D ssa.Value
 			var loop *an.Loop
 			if def != nil {
-				D = c15Local(def.Call.Args[0])
-				for _, l := range an.LoopsContaining(fn, sink.Block()) {
-					if c15ElemOf(l, D) {
-						loop = l
-						break
+				D = e.origin(c15Local(def.Call.Args[0]))
+				for _, lv := range levels {
+					for _, l := range an.LoopsContaining(lv.fn, lv.at.Block()) {
+						if loop == nil && c15ElemOf(l, D) {
+							loop = l
+						}
 					}
 				}
 			}
@@ -2557,7 +3332,7 @@ func c15U3(c *rt.Ctx) {
 			}
 			// duty slot
 			if ctor == "core.NewSyncContributionDuty" {
-				ok, unsure, why := c15SyncSlots(e, fn, sink, dutyCall.Call.Args[0], slotP)
+				ok, unsure, why := c15SyncSlots(e, fn, sink, dutyCall.Call.Args[0], slotP, loop)
 				if unsure {
 					c.Unsure(name+" slot range", sink.Pos(), why)
 				} else {
@@ -2567,7 +3342,7 @@ func c15U3(c *rt.Ctx) {
 				c.Check(name+" duty slot", sink.Pos(), ofD(dutyCall.Call.Args[0], "Slot"),
 					"the duty is not scheduled at the slot of the beacon duty it is defined by")
 				// a comparison of d.Slot with slot.Slot that is known, on every path, to exclude d.Slot < slot.Slot
-				atoms := c15Atoms(e, fn, func(h *ssa.Function) []c15Atom {
+				findSkip := func(h *ssa.Function) []c15Atom {
 					var out []c15Atom
 					for _, in := range an.Instrs(h, false) {
 						bin, ok := in.(*ssa.BinOp)
@@ -2599,8 +3374,8 @@ func c15U3(c *rt.Ctx) {
 						}
 					}
 					return out
-				}, 0)
-				c15CheckHolds(c, name+" slot skip", fn, sink, atoms,
+				}
+				c15CheckHoldsUp(c, e, name+" slot skip", sink, entry, findSkip,
 					"a beacon duty for a slot before the resolving slot reaches the store (no effective `d.Slot < slot.Slot` skip)")
 			}
 			// epoch bookkeeping
@@ -2611,46 +3386,70 @@ func c15U3(c *rt.Ctx) {
 				c.Check(name+" epoch", sink.Pos(), e.rooted(ep.Call.Args[0], slotP),
 					"the definition is not filed under the epoch being resolved (it would not be trimmed with it)")
 			}
-			// public key: looked up by D's validator index in vals, found on every path
-			// (the lookup itself, or a single-use helper that returns exactly its two results)
-			var lookups []ssa.CallInstruction
-			for _, in := range an.Instrs(fn, false) {
-				k, isCall := in.(*ssa.Call)
-				if !isCall || k.Call.Signature().Results().Len() != 2 {
-					continue
-				}
-				var r0, r1 ssa.Value
-				for _, ref := range *k.Referrers() {
-					if ex, ok := ref.(*ssa.Extract); ok {
-						if ex.Index == 0 {
-							r0 = ex
-						} else {
-							r1 = ex
-						}
-					}
-				}
-				if r0 == nil || r1 == nil {
-					continue
-				}
-				p0, i0 := e.resultOf(r0)
-				p1, i1 := e.resultOf(r1)
-				if p0 == nil || p0 != p1 || i0 != 0 || i1 != 1 || !an.Static(c15P+".validators.PubKeyFromIndex")(&p0.Call) {
-					continue
-				}
-				a := p0.Call.Args
-				if e.rooted(a[0], valsP) && ofD(a[1], "ValidatorIndex") {
-					lookups = append(lookups, k)
-				}
-			}
-			if len(lookups) == 0 {
-				hidden := false
-				for _, in := range an.Instrs(fn, false) {
+			// public key: looked up by D's validator index in vals, found on every path. The lookup may sit at any
+			// level between the store and the resolver's entry, or in a helper (then the helper's results are
+			// summarised per return like any other guard)
+			Ks := map[ssa.Value]bool{}
+			found, discarded := false, false
+			findLookup := func(h *ssa.Function) []c15Atom {
+				var out []c15Atom
+				for _, in := range an.Instrs(h, false) {
 					k, isCall := in.(*ssa.Call)
-					if !isCall || k.Call.StaticCallee() == nil || k.Call.StaticCallee().Pkg != e.pkg || an.Static(c15P+".validators.PubKeyFromIndex")(&k.Call) {
+					if !isCall || k.Call.Signature().Results().Len() != 2 {
 						continue
 					}
-					if res := k.Call.Signature().Results(); res.Len() >= 2 && an.TypeName(res.At(0).Type()) == "core.PubKey" {
-						hidden = true
+					var r0, r1 ssa.Value
+					for _, ref := range *k.Referrers() {
+						if ex, ok := ref.(*ssa.Extract); ok {
+							if ex.Index == 0 {
+								r0 = ex
+							} else {
+								r1 = ex
+							}
+						}
+					}
+					if !an.Static(c15P + ".validators.PubKeyFromIndex")(&k.Call) {
+						// a single-use helper that returns exactly the lookup's two results
+						if r0 == nil || r1 == nil {
+							continue
+						}
+						p0, i0 := e.resultOf(r0)
+						p1, i1 := e.resultOf(r1)
+						if p0 == nil || p0 != p1 || i0 != 0 || i1 != 1 || p0 == k || !an.Static(c15P+".validators.PubKeyFromIndex")(&p0.Call) {
+							continue
+						}
+						if a := p0.Call.Args; !e.rooted(a[0], valsP) || !ofD(a[1], "ValidatorIndex") {
+							continue
+						}
+					} else if a := k.Call.Args; !e.rooted(a[0], valsP) || !ofD(a[1], "ValidatorIndex") {
+						continue
+					}
+					found = true
+					if r1 == nil {
+						discarded = true
+						continue
+					}
+					if r0 != nil {
+						Ks[r0] = true
+					}
+					out = append(out, c15Atom{v: r1, want: true})
+				}
+				return out
+			}
+			for _, lv := range levels {
+				c15Atoms(e, lv.fn, findLookup, 0) // first pass: is there a lookup at all, which values are the looked-up key
+			}
+			if !found {
+				hidden := false
+				for _, lv := range levels {
+					for _, in := range an.Instrs(lv.fn, false) {
+						k, isCall := in.(*ssa.Call)
+						if !isCall || k.Call.StaticCallee() == nil || k.Call.StaticCallee().Pkg != e.pkg || an.Static(c15P+".validators.PubKeyFromIndex")(&k.Call) {
+							continue
+						}
+						if res := k.Call.Signature().Results(); res.Len() >= 2 && an.TypeName(res.At(0).Type()) == "core.PubKey" {
+							hidden = true
+						}
 					}
 				}
 				if hidden {
@@ -2660,54 +3459,28 @@ func c15U3(c *rt.Ctx) {
 				c.Bad(name+" validator lookup", sink.Pos(), "no vals.PubKeyFromIndex(d.ValidatorIndex) for the beacon duty precedes the store: duties of validators outside the active cluster set are stored")
 				continue
 			}
-			var idx ssa.CallInstruction
-			why := "the boolean result is discarded"
-			undecided := false
-			for _, k := range lookups {
-				_, okv := an.StatusOf(k, 1)
-				if okv == nil {
-					continue
-				}
-				all, decided := c15Arrivals(fn, sink, []ssa.Value{okv}, nil, func(f *an.H15Facts) bool {
-					kk, known := f.Known(okv)
-					return known && kk
-				})
-				if !decided {
-					undecided = true
-				}
-				if all && decided {
-					idx = k
-				} else {
-					why = "control reaches the store although the validator was not found"
-				}
+			lookupWhy := "vals.PubKeyFromIndex(d.ValidatorIndex): control reaches the store although the validator was not found"
+			if discarded && len(Ks) == 0 {
+				lookupWhy = "vals.PubKeyFromIndex(d.ValidatorIndex): the boolean result is discarded"
 			}
-			if idx == nil && undecided {
-				c.Unsure(name+" validator lookup", sink.Pos(), "too many paths to enumerate")
+			if !c15CheckHoldsUp(c, e, name+" validator lookup", sink, entry, findLookup, lookupWhy) {
 				continue
 			}
-			if !c.Check(name+" validator lookup", sink.Pos(), idx != nil, "vals.PubKeyFromIndex(d.ValidatorIndex): "+why) {
-				continue
-			}
-			var K ssa.Value
-			for _, ref := range *idx.Value().Referrers() {
-				if ex, ok := ref.(*ssa.Extract); ok && ex.Index == 0 {
-					K = ex
-				}
-			}
+			isK := func(v ssa.Value) bool { return v != nil && Ks[v] }
 			// equality of the looked-up key and the beacon duty's key, known on every path
-			var other ssa.Value
-			eqs := c15Atoms(e, fn, func(h *ssa.Function) []c15Atom {
+			others := map[ssa.Value]bool{}
+			findEq := func(h *ssa.Function) []c15Atom {
 				var out []c15Atom
 				for _, in := range an.Instrs(h, false) {
 					bin, ok := in.(*ssa.BinOp)
-					if !ok || (bin.Op != token.EQL && bin.Op != token.NEQ) || K == nil {
+					if !ok || (bin.Op != token.EQL && bin.Op != token.NEQ) {
 						continue
 					}
 					x, y := bin.X, bin.Y
-					if e.origin(y) == K {
+					if isK(e.origin(y)) {
 						x, y = y, x
 					}
-					if e.origin(x) != K {
+					if !isK(e.origin(x)) {
 						continue
 					}
 					from := c15Static(e.origin(y), "core.PubKeyFrom48Bytes")
@@ -2715,17 +3488,43 @@ func c15U3(c *rt.Ctx) {
 						continue
 					}
 					out = append(out, c15Atom{v: bin, want: bin.Op == token.EQL})
-					if h == fn {
-						other = from
-					}
+					others[from] = true
 				}
 				return out
-			}, 0)
-			c15CheckHolds(c, name+" public key equality", fn, sink, eqs,
+			}
+			c15CheckHoldsUp(c, e, name+" public key equality", sink, entry, findEq,
 				"the store is reachable without the looked-up public key having been found equal to the beacon duty's own public key")
-			pk := c15Local(pkArg)
-			c.Check(name+" public key argument", sink.Pos(), K != nil && (pk == K || (other != nil && (pk == other || an.Equiv(pk, other)))),
-				"the public key the definition is stored under is not the checked key of this beacon duty")
+			// the key the definition is stored under: the looked-up key (or the equal key of the beacon duty),
+			// directly or as what a helper returns on its non-constant returns
+			isChecked := func(v ssa.Value) bool {
+				if isK(v) || others[v] {
+					return true
+				}
+				for o := range others {
+					if an.Equiv(v, o) {
+						return true
+					}
+				}
+				return false
+			}
+			pk := e.origin(pkArg)
+			if isChecked(pk) {
+				c.Good(name+" public key argument", sink.Pos(), "")
+			} else if cands, viaHelper := c15ReturnCands(e, pk, 0, isChecked); viaHelper {
+				allK := len(cands) > 0
+				for _, cv := range cands {
+					if !isChecked(cv) {
+						allK = false
+					}
+				}
+				if allK {
+					c.Good(name+" public key argument", sink.Pos(), "")
+				} else {
+					c.Unsure(name+" public key argument", sink.Pos(), "the public key stored under comes from a helper whose returned value could not be reduced to the checked key")
+				}
+			} else {
+				c.Bad(name+" public key argument", sink.Pos(), "the public key the definition is stored under is not the checked key of this beacon duty")
+			}
 		}
 	}
 	for ctor := range c15DefFor {
@@ -2734,15 +3533,15 @@ func c15U3(c *rt.Ctx) {
 		}
 	}
 	// vals handed to the resolvers is the checked result of resolveActiveValidators
-	rav := c.OneCall(rd, an.Static(c15P+".resolveActiveValidators"), "resolveActiveValidators", false)
+	rav := c15RavCall(c, e, rd)
 	for _, rc := range rcs {
 		v := c15ArgT(rc.call.Common(), c15P+".validators")
 		ex, ok := e.origin(v).(*ssa.Extract)
 		good := ok && ex.Index == 0 && ex.Tuple == rav.Value()
 		undecided := false
 		if good {
-			if top := c15TopSite(e, rc.call, rd); top != nil {
-				g, decided, _ := c15ErrNilAt(rd, rav, nil, top)
+			if top := c15TopSite(e, rc.call, rav.Parent()); top != nil {
+				g, decided, _ := c15ErrNilAt(rav.Parent(), rav, nil, top)
 				good, undecided = g, !decided
 			} else {
 				good, undecided = false, true
@@ -2761,10 +3560,52 @@ func c15U3(c *rt.Ctx) {
 
 // c15SyncSlots: the duty slot is sl.Slot of a loop variable that starts at the resolving slot, advances by
 // Next() and stays inside the resolving slot's epoch.
-func c15SyncSlots(e *c15Env, fn *ssa.Function, sink ssa.Instruction, slotArg, slotP ssa.Value) (ok bool, unsure bool, why string) {
+//
+// Three-valued: the recognised spelling (sl.Epoch() == slot.Epoch() known on every path to the store, read
+// after the last assignment of sl) holds; a store on a path on which a recognised epoch test is not known
+// to have succeeded, an advance between the test and the store, or – whatever the spelling – a slot loop
+// none of whose exit conditions carries any epoch information (no Epoch()/LastInEpoch()/FirstInEpoch() of a
+// slot, no division / remainder / multiplication, no helper that could hide one) is a violation: the
+// number of slots stored then does not depend on where in its epoch the resolving slot lies, so for a
+// resolution that is not at the epoch's first slot the definitions spill into the next epoch (or fall
+// short). Everything else is undecided.
+func c15SyncSlots(e *c15Env, fn *ssa.Function, sink ssa.Instruction, slotArg, slotP ssa.Value, dutyLoop *an.Loop) (ok bool, unsure bool, why string) {
+	// the loops over slots: those around the store inside the loop over the beacon duties
+	var slotLoops []*an.Loop
+	for _, l := range an.LoopsContaining(fn, sink.Block()) {
+		if dutyLoop != nil && (l.Header == dutyLoop.Header || !dutyLoop.Body[l.Header]) {
+			continue
+		}
+		slotLoops = append(slotLoops, l)
+	}
+	epochInfo := false
+	for _, l := range slotLoops {
+		for b := range l.Body {
+			if len(b.Instrs) == 0 {
+				continue
+			}
+			iff, isIf := b.Instrs[len(b.Instrs)-1].(*ssa.If)
+			if !isIf {
+				continue
+			}
+			exits := false
+			for _, s := range b.Succs {
+				if !l.Body[s] {
+					exits = true
+				}
+			}
+			if exits && c15EpochInfo(e, iff.Cond) {
+				epochInfo = true
+			}
+		}
+	}
+	noBound := "the loop that stores sync contribution duties has no exit condition that depends on the epoch of the slot being stored (its length does not depend on the resolving slot's position in the epoch): when duties are resolved after the epoch's first slot, definitions are stored for slots of the next epoch"
 	b, n, isField := c15FieldRead(slotArg)
 	sl, isAlloc := b.(*ssa.Alloc)
 	if !isField || n != "Slot" || !isAlloc {
+		if len(slotLoops) > 0 && !epochInfo {
+			return false, false, noBound
+		}
 		return false, true, "sync contribution duty slot is not the Slot of a local slot variable"
 	}
 	var advances []*ssa.Store
@@ -2777,9 +3618,7 @@ func c15SyncSlots(e *c15Env, fn *ssa.Function, sink ssa.Instruction, slotArg, sl
 			return false, true, "the slot variable escapes"
 		}
 		if e.rooted(st.Val, slotP) && an.TypeName(st.Val.Type()) == "core.Slot" {
-			if _, _, isF := c15FieldRead(st.Val); !isF {
-				continue
-			}
+			continue // the resolving slot itself (core.Slot has no field of its own type, so this is not a part of it)
 		}
 		if next := c15Static(st.Val, "core.Slot.Next"); next != nil && c15IsLoadOf(next.Call.Args[0], sl) {
 			advances = append(advances, st)
@@ -2819,8 +3658,15 @@ func c15SyncSlots(e *c15Env, fn *ssa.Function, sink ssa.Instruction, slotArg, sl
 		eqs = append(eqs, bin)
 		truth[bin] = bin.Op == token.EQL
 	}
+	if len(eqs) == 0 && why == "" {
+		// no test of the recognised spelling
+		if len(slotLoops) > 0 && !epochInfo {
+			return false, false, noBound
+		}
+		return false, true, "the epoch bound of the sync contribution slots is not spelled sl.Epoch() == slot.Epoch(); it could not be followed"
+	}
 	if why == "" {
-		why = "the store is not guarded by sl.Epoch() == slot.Epoch(): sync duties are set outside the resolved epoch"
+		why = "the store is reachable on a path on which sl.Epoch() == slot.Epoch() is not known to hold: sync duties are set outside the resolved epoch"
 	}
 	all, decided := c15Arrivals(fn, sink, eqs, nil, func(f *an.H15Facts) bool {
 		for _, b := range eqs {
@@ -2834,6 +3680,83 @@ func c15SyncSlots(e *c15Env, fn *ssa.Function, sink ssa.Instruction, slotArg, sl
 		return false, true, "too many paths to enumerate"
 	}
 	return all, false, why
+}
+
+// c15EpochInfo: does the value depend (through arithmetic, locals, phis, fields) on anything that tells
+// where a slot lies relative to an epoch boundary – an epoch-related method of core.Slot, a division /
+// remainder / multiplication (the spellings of slot/SlotsPerEpoch arithmetic), or a call that is not a
+// plain accessor and could hide one?
+func c15EpochInfo(e *c15Env, v ssa.Value) bool {
+	seen := map[ssa.Value]bool{}
+	var walk func(v ssa.Value, d int) bool
+	walk = func(v ssa.Value, d int) bool {
+		if v == nil || seen[v] || d > 24 {
+			return false
+		}
+		seen[v] = true
+		switch x := v.(type) {
+		case *ssa.Const, *ssa.Global, *ssa.Function, *ssa.Builtin:
+			return false
+		case *ssa.Parameter:
+			if a := e.argOf(x); a != nil {
+				return walk(a, d+1)
+			}
+			return false
+		case *ssa.FreeVar:
+			return walk(c15Binding(x), d+1)
+		case *ssa.Alloc:
+			for _, ref := range *x.Referrers() {
+				switch r := ref.(type) {
+				case *ssa.Store:
+					if r.Addr == ssa.Value(x) && walk(r.Val, d+1) {
+						return true
+					}
+				case *ssa.FieldAddr:
+					for _, r2 := range *r.Referrers() {
+						if st, ok := r2.(*ssa.Store); ok && st.Addr == ssa.Value(r) && walk(st.Val, d+1) {
+							return true
+						}
+					}
+				}
+			}
+			return false
+		case *ssa.BinOp:
+			switch x.Op {
+			case token.QUO, token.REM, token.MUL, token.SHR, token.SHL, token.AND:
+				return true
+			}
+			return walk(x.X, d+1) || walk(x.Y, d+1)
+		case *ssa.Call:
+			if b, isB := x.Call.Value.(*ssa.Builtin); isB {
+				_ = b
+			} else if callee := x.Call.StaticCallee(); callee != nil {
+				switch an.FuncName(callee) {
+				case "core.Slot.Next":
+				default:
+					return true // Epoch(), LastInEpoch(), FirstInEpoch(), or a helper that may compute one
+				}
+			} else {
+				return true // dynamic call: unknown
+			}
+			for _, a := range x.Call.Args {
+				if walk(a, d+1) {
+					return true
+				}
+			}
+			return false
+		}
+		in, isInstr := v.(ssa.Instruction)
+		if !isInstr {
+			return false
+		}
+		for _, op := range an.Operands(in) {
+			if walk(op, d+1) {
+				return true
+			}
+		}
+		return false
+	}
+	return walk(v, 0)
 }
 
 // c15ActiveFilter: resolveActiveValidators appends a validator only on paths on which Status.IsActive()
@@ -2887,10 +3810,20 @@ func c15ActiveFilter(c *rt.Ctx) {
 		elems := appendedElems(a)
 		good, unsure := false, true
 		if len(elems) == 1 {
-			if ld, ok := elems[0].(*ssa.UnOp); ok {
+			// the element built here, or what a helper returns for it (zero values, returned together with
+			// "not active", have no index assigned and are not what gets appended)
+			cands := []ssa.Value{elems[0]}
+			if more, via := c15ReturnCands(e, e.origin(elems[0]), 0, nil); via {
+				cands = more
+			}
+			for _, cv := range cands {
+				ld, ok := c15Local(cv).(*ssa.UnOp)
+				if !ok {
+					continue
+				}
 				if lit, ok := ld.X.(*ssa.Alloc); ok {
 					for _, st := range c15StructInit(lit)[c15P+".validator.VIdx"] {
-						key := c15Local(st.Val)
+						key := e.origin(st.Val)
 						if ex, ok := key.(*ssa.Extract); ok && ex.Index == 1 {
 							if _, isNext := ex.Tuple.(*ssa.Next); isNext {
 								good, unsure = true, false
@@ -2931,6 +3864,43 @@ func c15ActiveFilter(c *rt.Ctx) {
 func c15U4(c *rt.Ctx) {
 	e := c15NewEnv(c)
 	fn := c.Fn(c15P + ".Scheduler.setDutyDefinition")
+	// setDutyDefinition may be a thin wrapper (take the lock, call the worker with its own parameters):
+	// the first-wins obligations are then those of the single-use worker
+	for i := 0; i < 3; i++ {
+		has := false
+		for _, up := range mapUpdates(fn, func(ssa.Value) bool { return true }) {
+			if up.Parent() == fn && an.TypeName(up.Map.Type()) == "core.DutyDefinitionSet" {
+				has = true
+			}
+		}
+		if has {
+			break
+		}
+		var next *ssa.Function
+		for _, in := range an.Instrs(fn, false) {
+			call, ok := in.(*ssa.Call)
+			if !ok || call.Call.StaticCallee() == nil || call.Call.IsInvoke() {
+				continue
+			}
+			h := an.Orig(call.Call.StaticCallee())
+			if h.Pkg != e.pkg || e.site(h) != ssa.CallInstruction(call) || !c15HasParamT(h, "core.Duty") || !c15HasParamT(h, "core.PubKey") || !c15HasParamT(h, "core.DutyDefinition") {
+				continue
+			}
+			forwards := true
+			for _, a := range call.Call.Args {
+				if p, isP := e.originShallow(a).(*ssa.Parameter); !isP || p.Parent() != fn {
+					forwards = false
+				}
+			}
+			if forwards {
+				next = h
+			}
+		}
+		if next == nil {
+			break
+		}
+		fn = next
+	}
 	dutyP := c15ParamT(c, fn, "core.Duty")
 	pkP := c15ParamT(c, fn, "core.PubKey")
 	setP := c15ParamT(c, fn, "core.DutyDefinition")
@@ -3189,7 +4159,7 @@ func c15U5(c *rt.Ctx) {
 		if src != nil && src.Index == 0 {
 			get, _ = src.Tuple.(*ssa.Call)
 		}
-		if get == nil || get.Parent() != sched || !an.Static(c15P+".Scheduler.getDutyDefinitionSet")(&get.Call) {
+		if get == nil || !e.owned(sched)[get.Parent()] || !an.Static(c15P+".Scheduler.getDutyDefinitionSet")(&get.Call) {
 			c.Bad(name, s.Pos(), "the clone handed to subscribers is not a clone of the definition set the goroutine was started with")
 			continue
 		}
@@ -3216,7 +4186,7 @@ func c15U6(c *rt.Ctx) {
 	slotP := c15ParamT(c, rd, "core.Slot")
 	setN := c15P + ".Scheduler.setResolvedEpoch"
 	const sentinel = int64(^uint64(0) >> 1) // math.MaxInt64, the "nothing resolved" marker
-	rav := c.OneCall(rd, an.Static(c15P+".resolveActiveValidators"), "resolveActiveValidators", false)
+	rav := c15RavCall(c, e, rd)
 	var vals ssa.Value
 	for _, ref := range *rav.Value().Referrers() {
 		if ex, ok := ref.(*ssa.Extract); ok && ex.Index == 0 {
@@ -3224,7 +4194,7 @@ func c15U6(c *rt.Ctx) {
 		}
 	}
 	var resolverNames []string
-	resolvers := c15ResolverFns(c, e)
+	resolvers, _ := c15ResolverEntries(c, e)
 	for _, fn := range resolvers {
 		resolverNames = append(resolverNames, c15ShortName(fn))
 	}
@@ -3280,7 +4250,17 @@ func c15U6(c *rt.Ctx) {
 				"the epoch marked resolved is not the epoch of the slot being resolved") {
 				continue
 			}
-			if g, decided, why := c15ErrNilAt(rd, rav, nil, call); !decided {
+			// the call in resolveDuties whose nil error implies that the validator list was obtained
+			ravSite, _, ravUnsure, ravWhy := c15SuccessSite(e, rd, c15ResolverCall{call: rav, names: []string{"resolveActiveValidators"}}, nil)
+			if ravSite == nil {
+				if ravUnsure {
+					c.Unsure(name+" after success", call.Pos(), "resolveActiveValidators: "+ravWhy)
+				} else {
+					c.Bad(name+" after success", call.Pos(), "resolveActiveValidators: "+ravWhy)
+				}
+				continue
+			}
+			if g, decided, why := c15ErrNilAt(rd, ravSite, nil, call); !decided {
 				c.Unsure(name+" after success", call.Pos(), "too many paths to enumerate")
 				continue
 			} else if !g {
@@ -3291,6 +4271,7 @@ func c15U6(c *rt.Ctx) {
 			var track []ssa.Value
 			track = append(track, lenCmps...)
 			errOf := map[ssa.CallInstruction][]c15Atom{}
+			evOf := map[ssa.CallInstruction]ssa.Value{}
 			loopOK := map[ssa.CallInstruction]bool{}
 			loopWhy, helperUnsure := "", ""
 			for _, rc := range rcs {
@@ -3313,11 +4294,16 @@ func c15U6(c *rt.Ctx) {
 				}
 				if errs, _ := an.StatusOf(site, -1); len(errs) == 1 {
 					errOf[rc.call] = c15NilAtoms(rd, errs[0])
+					evOf[rc.call] = errs[0]
 					track = append(track, c15AtomVals(errOf[rc.call])...)
 				}
 			}
+			// error variables reused along a chain (`err = a(); if err == nil { err = b() }`): the comparisons
+			// of an error-typed phi with nil, read on each path for the call whose result the phi then holds
+			nilCmps := c15ErrNilCmps(rd)
+			track = append(track, nilCmps...)
 			sawEmpty, why := false, ""
-			all, decided := c15Arrivals(rd, call, track, nil, func(f *an.H15Facts) bool {
+			all, decided := c15Arrivals(rd, call, track, func(p *ssa.Phi) bool { return an.IsErrorType(p.Type()) }, func(f *an.H15Facts) bool {
 				if isEmpty(f) {
 					sawEmpty = true
 					return true
@@ -3325,13 +4311,13 @@ func c15U6(c *rt.Ctx) {
 				done := map[string]bool{}
 				for _, rc := range rcs {
 					good := false
-					if atoms := errOf[rc.call]; len(atoms) == 0 {
+					if ev := evOf[rc.call]; ev != nil {
+						good = c15Holds(f, errOf[rc.call]) || c15NilOnPath(f, nilCmps, ev)
+					} else {
 						good = loopOK[rc.call]
 						if !good && loopWhy != "" {
 							why = rc.names[0] + "…: " + loopWhy
 						}
-					} else {
-						good = c15Holds(f, atoms)
 					}
 					if good {
 						for _, rn := range rc.names {
